@@ -18,7 +18,7 @@ ASSUMPTIONS = ['part 1: both sides run in one thread over stub providers; part 2
 TS = ['1.2.840.10008.1.2', '1.2.840.10008.1.2.1', '1.2.840.10008.1.2.2']
 PATIENT_FIND = '1.2.840.10008.5.1.4.1.2.1.1'
 MWL = '1.2.840.10008.5.1.4.31'
-ALPHA = [('a', 0xFF00), ('b', 0xFF01), ('big', 0xFF00)]
+ALPHA = [('a', 0xFF00), ('b', 0xFF01), ('big', 0xFF00), None, ('empty', 0xFF00)]    # [3] = handler error marker; [4] = a match without any element
 FINALS = [0x0000, 0xC001, 0xA700, 0xFE00, 0x1234, 0xB000, 0x0122]
 
 
@@ -31,6 +31,8 @@ def cases(tier, seed):
     hists = [h for n in range(depth + 1) for h in itertools.product(range(3), repeat=n)]
     # letter 3 = the handler's generator raises EventHandlingError at that point (only as last letter)
     hists += [h + (3,) for n in range(depth) for h in itertools.product(range(3), repeat=n)]
+    # matches that carry no element at all (an empty identifier) are still matches: more may follow
+    hists += [(4,), (4, 0), (0, 4, 1), (4, 4, 2), (1, 4)]
     for entry in ('qr', 'mwl', 'c_find'):
         for h in hists:
             for ti in range(3):
@@ -136,12 +138,12 @@ def run_case(case):
     except Exception as exc:
         import traceback
         return {'viol': [(sig + ':raises', 'exchange raised %r (%s) %s' % (exc, where, traceback.format_exc()[-300:]))], 'case': case, 'key': None}
-    exp = [(dsgen.enc(d, ts), int(s)) for d, s in script_int]
-    gotn = [(dsgen.enc(d, ts) if d is not None else None, int(s), s.is_pending) for d, s in got]
+    exp = [(dsgen.enc(d, ts) or None, int(s)) for d, s in script_int]
+    gotn = [((dsgen.enc(d, ts) or None) if d is not None else None, int(s), s.is_pending) for d, s in got]
     body, tail = gotn[:len(exp)], gotn[len(exp):]
     if [(d, s) for d, s, _ in body] != exp:
         viol.append((sig + ':matches', 'SCU received %r, handler produced %r (%s)' % (
-            [('%d bytes' % len(d) if d else None, '%04X' % s) for d, s, _ in body], [('%d bytes' % len(d), '%04X' % s) for d, s in exp], where)))
+            [('%d bytes' % len(d) if d else None, '%04X' % s) for d, s, _ in body], [('%d bytes' % len(d) if d else None, '%04X' % s) for d, s in exp], where)))
     elif not all(p for _, _, p in body):
         viol.append((sig + ':pending-flag', 'a match was not classified pending (%s)' % where))
     if fails and len(tail) == 1 and not got[-1][1].is_failure:
